@@ -155,6 +155,7 @@ func (v *IndexVamana) insertUpdateDelete(ctx context.Context, pointQueue <-chan 
 	insertedIds := make(map[uint64]struct{})
 	// ---------------------------
 	insertQ, distributeErrC := utils.TransformWithContext(ctx, pointQueue, func(point IndexVectorChange) (out IndexVectorChange, skip bool, err error) {
+		verifSawChange(point)
 		if point.Id == STARTID {
 			err = fmt.Errorf("cannot modify point with start id: %d", STARTID)
 			return
@@ -214,6 +215,7 @@ func (v *IndexVamana) insertUpdateDelete(ctx context.Context, pointQueue <-chan 
 	if err := <-utils.MergeErrorsWithContext(ctx, errCs...); err != nil {
 		return fmt.Errorf("could not distribute or insert points: %w", err)
 	}
+	v.verifClassified(updatedPoints, deletedPointsIds, toRemoveInBoundNodeIds, insertedIds)
 	// ---------------------------
 	/* Initially we doubled downed on the assumption that more often than not
 	 * there would be bidirectional edges between points. This is, however,
